@@ -148,12 +148,12 @@ def unsolicitedResetState (s : St) : St :=
 def startFlush (s : St) (f : Fsm) (a : After) : St :=
   match f with
   | .cmd => ({ s with position := 0, writeSrc := .nl (nlOff s), writeState := 0,
-                      writeStateAfter := a.toC, state := .flushWait } : St).emit (.flushStart .cmd false)
+                      writeStateAfter := a, state := .flushWait } : St).emit (.flushStart .cmd false)
   | .uns => ({ s with uposition := 0, uwriteSrc := .nl (nlOff s), uwriteState := 0,
-                      uwriteStateAfter := a.toU, ustate := .flushWait } : St).emit (.flushStart .uns false)
+                      uwriteStateAfter := a, ustate := .flushWait } : St).emit (.flushStart .uns false)
 
 def startFlushRaw (s : St) (a : After) : St :=
-  ({ s with position := 0, writeSrc := .main, writeState := 2, writeStateAfter := a.toC,
+  ({ s with position := 0, writeSrc := .main, writeState := 2, writeStateAfter := a,
             state := .flushWait } : St).emit (.flushStart .cmd true)
 
 /-- `strncpy(get_atcmd_buf(self), str, get_atcmd_buf_size(self))`: copy, then zero-pad to n. -/
@@ -843,7 +843,7 @@ def processIoWrite (D : Desc) (s : St) (i : SvcIn) : St × Int :=
     let s :=
       if s.writeState == 0 then { s with position := 0, writeSrc := .main, writeState := 1 }
       else if s.writeState == 1 then { s with position := 0, writeSrc := .nl (nlOff s), writeState := 2 }
-      else if s.writeState == 2 then ({ s with state := s.writeStateAfter } : St).emit (.flushEnd .cmd)
+      else if s.writeState == 2 then ({ s with state := s.writeStateAfter.toC } : St).emit (.flushEnd .cmd)
       else s
     (s, Gen.CAT_STATUS_BUSY)
   else
@@ -858,7 +858,7 @@ def unsolicitedProcessIoWrite (D : Desc) (s : St) (i : SvcIn) : St × Int :=
     let s :=
       if s.uwriteState == 0 then { s with uposition := 0, uwriteSrc := .main, uwriteState := 1 }
       else if s.uwriteState == 1 then { s with uposition := 0, uwriteSrc := .nl (nlOff s), uwriteState := 2 }
-      else if s.uwriteState == 2 then ({ s with ustate := s.uwriteStateAfter } : St).emit (.flushEnd .uns)
+      else if s.uwriteState == 2 then ({ s with ustate := s.uwriteStateAfter.toU } : St).emit (.flushEnd .uns)
       else s
     (s, Gen.CAT_STATUS_BUSY)
   else
